@@ -120,6 +120,21 @@ func RunSched(r *Rec, n *Names, s Sched) SchedResult {
 			panic(err)
 		}
 		lg.add(trace.M{"ev": "Restart", "run": run, "last": last, "tip": stub.Tip(), "earliest": stub.Earliest()})
+		if run > 0 {
+			// a FRESH KVIndexer over the surviving database, before it indexes anything: its two lookups are
+			// functions of the index contents alone
+			// heights up to the last block in the index and one beyond (everything above is trivially absent)
+			upTo := last + 1
+			if upTo < 1 {
+				upTo = 1
+			}
+			if upTo > s.Tip {
+				upTo = s.Tip
+			}
+			for _, ev := range Lookups(r, n, idx, upTo-1, "fresh-after-restart") {
+				lg.add(ev)
+			}
+		}
 		died := false
 		switch s.Mode {
 		case "service":
@@ -220,8 +235,16 @@ func RunSched(r *Rec, n *Names, s Sched) SchedResult {
 		}
 		lg.add(trace.M{"ev": "Caught", "tip": runTip})
 		lg.add(trace.M{"ev": "Kv", "when": "caught-up", "dump": dec.Dump(inner)})
-		for _, ev := range Lookups(r, n, idx, runTip) {
+		for _, ev := range Lookups(r, n, idx, runTip, "caught-up") {
 			lg.add(ev)
+		}
+		if res.Crashes == 0 {
+			// an instance that never indexed anything itself (read-only use of the index, e.g. another process or a
+			// JSON-RPC node started on an existing index database)
+			ro := indexer.NewKVIndexer(inner, log.NewNopLogger(), ClientCtx(r, nil))
+			for _, ev := range Lookups(r, n, ro, runTip, "read-only-instance") {
+				lg.add(ev)
+			}
 		}
 		if run == 0 && s.Earliest > 0 && len(s.Die) > 1 {
 			continue // graceful stop, the node prunes, the service is started again
@@ -235,7 +258,7 @@ func RunSched(r *Rec, n *Names, s Sched) SchedResult {
 
 // Lookups queries the real indexer by hash for every Ethereum tx hash of the chain (and an unknown one)
 // and by (height, index) for every height and index 0..4.
-func Lookups(r *Rec, n *Names, idx *indexer.KVIndexer, tip int64) []trace.M {
+func Lookups(r *Rec, n *Names, idx *indexer.KVIndexer, tip int64, when string) []trace.M {
 	var out []trace.M
 	conv := func(h int64, txIdx uint32, ethIdx int32, failed bool) trace.M {
 		return trace.M{"found": true, "r": trace.M{"h": h, "txIdx": int64(txIdx), "ethIdx": int64(ethIdx), "failed": failed}}
@@ -243,13 +266,13 @@ func Lookups(r *Rec, n *Names, idx *indexer.KVIndexer, tip int64) []trace.M {
 	notfound := func() trace.M { return trace.M{"found": false, "r": noVal()} }
 	hashes := append([]common.Hash{}, n.Hashes...)
 	for _, h := range hashes {
-		q := trace.M{"ev": "Lookup", "by": "hash", "hash": n.TxKnown(h), "res": notfound()}
+		q := trace.M{"ev": "Lookup", "when": when, "by": "hash", "hash": n.TxKnown(h), "res": notfound()}
 		if tr, err := idx.GetByTxHash(h); err == nil {
 			q["res"] = conv(tr.Height, tr.TxIndex, tr.EthTxIndex, tr.Failed)
 		}
 		out = append(out, q)
 	}
-	q := trace.M{"ev": "Lookup", "by": "hash", "hash": "unknown", "res": notfound()}
+	q := trace.M{"ev": "Lookup", "when": when, "by": "hash", "hash": "unknown", "res": notfound()}
 	if tr, err := idx.GetByTxHash(common.HexToHash("0xdeadbeef")); err == nil {
 		q["res"] = conv(tr.Height, tr.TxIndex, tr.EthTxIndex, tr.Failed)
 	}
@@ -261,12 +284,12 @@ func Lookups(r *Rec, n *Names, idx *indexer.KVIndexer, tip int64) []trace.M {
 		}
 	}
 	for h := int64(1); h <= tip+1; h++ {
-		lim := int32(5)
-		if rb, ok := r.Blocks[h]; ok && int32(len(rb.Txs))+1 > lim {
-			lim = int32(len(rb.Txs)) + 1
+		lim := int32(2) // every index a tx of the block can have, and one or two beyond
+		if rb, ok := r.Blocks[h]; ok {
+			lim = int32(len(rb.Txs)) + 2
 		}
 		for i := int32(0); i < lim; i++ {
-			q := trace.M{"ev": "Lookup", "by": "index", "h": h, "i": int64(i), "res": notfound(), "hash": "none"}
+			q := trace.M{"ev": "Lookup", "when": when, "by": "index", "h": h, "i": int64(i), "res": notfound(), "hash": "none"}
 			if tr, err := idx.GetByBlockAndIndex(h, i); err == nil {
 				q["res"] = conv(tr.Height, tr.TxIndex, tr.EthTxIndex, tr.Failed)
 				// which hash does the (height, index) key point to: read back through the by-hash family
